@@ -2,12 +2,16 @@
 C30 — saved sessions hold the key confirmed for the primary DC.
 Property theorems only (helper lemmas live in TdModel/Lemmas/C30.lean).
 
-`run s0 ns` feeds an arbitrary list of session notifications (primary DC, other DCs, CDN DCs,
-DC id 0, with and without a permanent key, storage failing or not) to the model of
-`onSession` / `onCDNSession` / `saveSession`; `restore` is `restoreConnection`.
+`runI s0 ns` feeds an arbitrary list of session notifications (primary DC, other DCs, CDN DCs,
+DC id 0, with and without a permanent key, storage failing or not) and migrations to the model of
+`onSession` / `onCDNSession` / `saveSession` / `Migrate`; `restoreI` is `restoreConnection`;
+`crunI` runs any interleaving of their atomic steps.  All three are INTERPRETED from the structured
+facts regenerated from the Go source (`TdModel/Model/C30Interp.lean`); `interpreted_model_is_documented_model`
+ties them to the hand-written transliteration.
 -/
 import TdModel.Lemmas.C30
 import TdModel.Lemmas.C30Conc
+import TdModel.Lemmas.C30Interp
 
 namespace TdModel.C30
 open TdModel
@@ -18,14 +22,15 @@ notification's auth key — the permanent key when PFS supplied one — key id a
 from a regular (non-CDN) connection; and when it arrived its DC was the primary DC (or the
 client had no primary DC yet, or the notification carried DC id 0). -/
 theorem saved_pairs_dc_with_its_key (s0 : St) (ns : List Notif) (d : Stored)
-    (h : (run s0 ns).stored = some d) :
+    (h : (runI s0 ns).stored = some d) :
     s0.stored = some d ∨
       ∃ pre n post, ns = pre ++ n :: post ∧ n.kind = .regular ∧
         d.dc = n.cfgDC ∧
         d.authKey = (if n.permKey.isZero then n.key else n.permKey).value ∧
         d.authKeyID = (if n.permKey.isZero then n.key else n.permKey).id ∧
         d.salt = n.salt ∧
-        (n.cfgDC = (run s0 pre).session.dc ∨ (run s0 pre).session.dc = 0 ∨ n.cfgDC = 0) := by
+        (n.cfgDC = (runI s0 pre).session.dc ∨ (runI s0 pre).session.dc = 0 ∨ n.cfgDC = 0) := by
+  simp only [runI_eq] at h ⊢
   rcases stored_origin ns s0 d h with h1 | ⟨pre, n, post, addr, he, ha, hd⟩
   · exact Or.inl h1
   · right
@@ -33,44 +38,61 @@ theorem saved_pairs_dc_with_its_key (s0 : St) (ns : List Notif) (d : Stored)
     · simp only [accepted, Bool.and_eq_true, decide_eq_true_eq] at ha; exact ha.1.1.1
     all_goals (subst hd; simp [storedOf, effKey]; try split <;> rfl)
 
-/-- The same under concurrency: notifications of any number of connections, each split into its
-atomic steps (DC-map update, primary-DC test, `c.session.Store`, storage load, storage save),
-interleaved in any way (`as` is any list of "a notification arrives" / "notification `i` performs
-its next step").  The storage still holds the whole data of ONE regular notification, which
-passed the primary-DC test against the primary DC it read (`t.saw`). -/
+/-- The same under concurrency, including DC migration: notifications of any number of connections,
+each split into its atomic steps (DC-map update, primary-DC test, `c.session.Store`, storage load +
+computation of the data, storage save), and any number of `c.session.Migrate` calls, interleaved in any
+way (`as` is any list of "an agent arrives" / "agent `i` performs its next step").  The storage still
+holds the whole data of ONE regular notification — in particular the stored DC id is that
+notification's DC, never the DC of a concurrent migration or of another notification — and that
+notification passed the primary-DC test against the primary DC it read (`t.saw`). -/
 theorem concurrent_saved_pairs_dc_with_its_key (s0 : St) (as : List Act) (d : Stored)
-    (h : (crun (cinit s0) as).st.stored = some d) :
+    (h : (crunI (cinit s0) as).st.stored = some d) :
     s0.stored = some d ∨
-      ∃ i t, (crun (cinit s0) as).threads i = some t ∧ t.n.kind = .regular ∧
+      ∃ i t, (crunI (cinit s0) as).threads i = some t ∧ t.n.kind = .regular ∧
         d.dc = t.n.cfgDC ∧
         d.authKey = (if t.n.permKey.isZero then t.n.key else t.n.permKey).value ∧
         d.authKeyID = (if t.n.permKey.isZero then t.n.key else t.n.permKey).id ∧
         d.salt = t.n.salt ∧
         (t.n.cfgDC = t.saw ∨ t.saw = 0 ∨ t.n.cfgDC = 0) := by
-  rcases (cinv_run s0.stored as (cinit s0) (cinv_init s0)).stored with h1 | ⟨i, t, ht, _, hk, he, hs⟩
+  simp only [crunI_eq] at h ⊢
+  rcases (cinv_run s0.stored as (cinit s0) (cinv_init s0)).stored with h1 | ⟨i, t, ht, hk, _, he, ⟨addr, hp⟩, hs⟩
   · left; rw [← h1]; exact h
   · right
-    rw [h] at hs
+    rw [h, hp] at hs
     have hd := Option.some.inj hs
     refine ⟨i, t, ht, hk, ?_, ?_, ?_, ?_, he⟩
     all_goals (subst hd; simp [storedOf, effKey]; try split <;> rfl)
 
-/-- The sequential model is the interleaving in which a notification runs alone. -/
+/-- `saved_dc_is_notification_dc`: in every interleaving with migrations the stored DC id is the DC
+of the notification whose key and salt are stored (corollary, stated on its own because it is the
+part a "store the live primary DC" change breaks). -/
+theorem saved_dc_is_notification_dc (s0 : St) (as : List Act) (d : Stored)
+    (h : (crunI (cinit s0) as).st.stored = some d) (h0 : s0.stored ≠ some d) :
+    ∃ i t, (crunI (cinit s0) as).threads i = some t ∧ t.n.kind = .regular ∧ d.dc = t.n.cfgDC ∧
+      d.salt = t.n.salt := by
+  rcases concurrent_saved_pairs_dc_with_its_key s0 as d h with h1 | ⟨i, t, ht, hk, hdc, _, _, hs, _⟩
+  · exact absurd h1 h0
+  · exact ⟨i, t, ht, hk, hdc, hs⟩
+
+/-- The sequential semantics is the interleaving in which an agent runs alone, and it is the
+hand-written sequential model. -/
 theorem sequential_is_an_interleaving (s : St) (n : Notif) :
-    (alone s n).1 = (step s n).1 ∧ (alone s n).2.res = (step s n).2 :=
-  alone_eq_step s n
+    stepI s n = ((aloneWith advI s n).1, (aloneWith advI s n).2.res) ∧ stepI s n = step s n :=
+  ⟨rfl, stepI_eq s n⟩
 
 /-- A client whose primary DC is `p ≠ 0` only ever stores sessions of DC `p`, whatever arrives
-from other DCs and CDN DCs in whatever order. -/
+from other DCs and CDN DCs in whatever order (as long as the client is not told to migrate). -/
 theorem stored_dc_is_primary (s0 : St) (ns : List Notif) (d : Stored)
-    (hp : s0.session.dc ≠ 0) (hn : ∀ n ∈ ns, n.cfgDC ≠ 0) (h : (run s0 ns).stored = some d) :
+    (hp : s0.session.dc ≠ 0) (hn : ∀ n ∈ ns, n.cfgDC ≠ 0 ∧ n.kind ≠ .migrate)
+    (h : (runI s0 ns).stored = some d) :
     s0.stored = some d ∨ d.dc = s0.session.dc := by
   rcases saved_pairs_dc_with_its_key s0 ns d h with h1 | ⟨pre, n, post, he, _, hdc, _, _, _, hacc⟩
   · exact Or.inl h1
   · right
-    have hpre : (run s0 pre).session.dc = s0.session.dc :=
-      run_primary pre s0 hp (fun m hm => hn m (by rw [he]; exact List.mem_append_left _ hm))
-    have hn0 : n.cfgDC ≠ 0 := hn n (by rw [he]; simp)
+    have hpre : (runI s0 pre).session.dc = s0.session.dc := by
+      rw [runI_eq]
+      exact run_primary pre s0 hp (fun m hm => hn m (by rw [he]; exact List.mem_append_left _ hm))
+    have hn0 : n.cfgDC ≠ 0 := (hn n (by rw [he]; simp)).1
     rw [hpre] at hacc
     rcases hacc with h2 | h2 | h2
     · rw [hdc, h2]
@@ -78,43 +100,45 @@ theorem stored_dc_is_primary (s0 : St) (ns : List Notif) (d : Stored)
     · exact absurd h2 hn0
 
 /-- With a storage that does not fail, the stored session is always the in-memory primary
-session (`c.session`): same DC, key, key id and salt. -/
+session (`c.session`): same DC, key, key id and salt (sequential notifications, no migration in between —
+a migration zeroes `c.session` and leaves the storage to the next notification). -/
 theorem stored_is_primary_session (s0 : St) (ns : List Notif) (d : Stored)
-    (hst : s0.hasStorage = true) (h0 : s0.stored = none) (hf : ∀ n ∈ ns, n.fault = .none)
-    (h : (run s0 ns).stored = some d) :
-    d.dc = (run s0 ns).session.dc ∧ d.authKey = (run s0 ns).session.key.value ∧
-      d.authKeyID = (run s0 ns).session.key.id ∧ d.salt = (run s0 ns).session.salt :=
-  run_inSync ns s0 hst hf (by intro d hd; rw [h0] at hd; cases hd) d h
+    (hst : s0.hasStorage = true) (h0 : s0.stored = none)
+    (hf : ∀ n ∈ ns, n.fault = .none ∧ n.kind ≠ .migrate) (h : (runI s0 ns).stored = some d) :
+    d.dc = (runI s0 ns).session.dc ∧ d.authKey = (runI s0 ns).session.key.value ∧
+      d.authKeyID = (runI s0 ns).session.key.id ∧ d.salt = (runI s0 ns).session.salt := by
+  simp only [runI_eq] at h ⊢
+  exact run_inSync ns s0 hst hf (by intro d hd; rw [h0] at hd; cases hd) d h
 
 /-- A notification from a non-primary DC changes neither the storage nor the primary session. -/
 theorem nonprimary_ignored (s : St) (n : Notif) (hk : n.kind = .regular)
     (h1 : n.cfgDC ≠ 0) (h2 : s.session.dc ≠ 0) (h3 : s.session.dc ≠ n.cfgDC) :
-    (step s n).1.stored = s.stored ∧ (step s n).1.session = s.session ∧ (step s n).2 = .ok := by
+    (stepI s n).1.stored = s.stored ∧ (stepI s n).1.session = s.session ∧ (stepI s n).2 = .ok := by
   have : skips s.session.dc n.cfgDC = true := by simp [skips, h1, h2, h3]
-  simp [step, hk, onSession, this]
+  simp [stepI_eq, step, hk, onSession, this]
 
 /-- CDN connections never touch the storage or the primary session. -/
 theorem cdn_session_never_saved (s : St) (n : Notif) (hk : n.kind = .cdn) :
-    (step s n).1.stored = s.stored ∧ (step s n).1.session = s.session := by
-  simp [step, hk, onCDNSession]
+    (stepI s n).1.stored = s.stored ∧ (stepI s n).1.session = s.session := by
+  simp [stepI_eq, step, hk, onCDNSession]
 
 /-- A stored session whose key id is not bytes 12..19 of the SHA-1 of its key (both taken as
 `restoreConnection` copies them into `[256]byte` / `[8]byte`) is refused. -/
 theorem restore_refuses_mismatch (P : Prims) (s : St) (d : Stored) (hst : s.hasStorage = true)
     (h : ((P.sha1 (fit 256 d.authKey)).drop 12).take 8 ≠ fit 8 d.authKeyID) :
-    restore P s (.data d) = .error .corrupted := by
+    restoreI P s (.data d) = .error .corrupted := by
   have h' : keyID P (fit 256 d.authKey) ≠ fit 8 d.authKeyID := h
-  simp [restore, hst, h']
+  simp [restoreI_eq, restore, hst, h']
 
 /-- Whatever `restoreConnection` installs has a key id matching its key, the stored salt and
 the stored DC (the configured DC when the file has none); and nothing else changes. -/
 theorem restore_installs_checked_key (P : Prims) (s s' : St) (d : Stored) (hst : s.hasStorage = true)
-    (h : restore P s (.data d) = .ok s') :
+    (h : restoreI P s (.data d) = .ok s') :
     s'.session.key.id = ((P.sha1 s'.session.key.value).drop 12).take 8 ∧
       s'.session.key.value = fit 256 d.authKey ∧ s'.session.key.id = fit 8 d.authKeyID ∧
       s'.session.salt = d.salt ∧ s'.session.dc = (if d.dc = 0 then s.session.dc else d.dc) ∧
       s'.stored = s.stored := by
-  simp only [restore, hst, Bool.not_true, Bool.false_eq_true, if_false] at h
+  simp only [restoreI_eq, restore, hst, Bool.not_true, Bool.false_eq_true, if_false] at h
   split at h
   · cases h
   · rename_i hk
@@ -129,48 +153,40 @@ theorem restore_of_saved (P : Prims) (s r : St) (n : Notif) (hacc : accepted s n
     (hr : r.hasStorage = true) (hdc : n.cfgDC ≠ 0)
     (hv : (effKey n).value.length = 256) (hi : (effKey n).id.length = 8)
     (hid : ((P.sha1 (effKey n).value).drop 12).take 8 = (effKey n).id) :
-    ∃ r', restore P r (loadOf (step s n).1) = .ok r' ∧ r'.session = sessOf n := by
+    ∃ r', restoreI P r (loadOf (stepI s n).1) = .ok r' ∧ r'.session = sessOf n := by
+  rw [restoreI_eq, stepI_eq]
   obtain ⟨addr, h1⟩ := step_stored_of_accepted s n hacc
   have hk : keyID P (effKey n).value = (effKey n).id := hid
   refine ⟨{ r with session := sessOf n }, ?_, rfl⟩
   simp [loadOf, h1, restore, hr, storedOf, fit_of_length _ _ hv, fit_of_length _ _ hi, hk, hdc, sessOf]
 
 /-- The regenerated facts are what the model assumes: the key id is bytes 12..19 of the SHA-1;
-regular connections report to `onSession`, CDN connections to `onCDNSession`. -/
+regular connections report to `onSession`, CDN connections to `onCDNSession`; `migrateToDc` calls
+`c.session.Migrate` with its DC parameter, which sets the DC and zeroes key and salt (the model's
+migration step). -/
 theorem constants_are_spec :
     Facts.C30.keyIDOffset = 12 ∧ Facts.C30.keyIDLen = 8 ∧
-      Facts.C30.regularHandlerCalls = "onSession" ∧ Facts.C30.cdnHandlerCalls = "onCDNSession" := by
+      Facts.C30.regularHandlerCalls = "onSession" ∧ Facts.C30.cdnHandlerCalls = "onCDNSession" ∧
+      Facts.C30.migrateToDcMigratesSession = true ∧
+      Facts.C30.migrateAssigns = ["AuthKey=zero", "DC=param", "Salt=zero"] := by
   decide
 
-/-- The modelled functions are the ones in the source (conditions, assignments to `data.*`, calls
-on `c.session` / `c.storeDCSess`, returns — in source order, regenerated on every run). -/
-theorem source_is_modelled :
-    Facts.C30.onSessionSrc =
-      ["do sessionData := dcSessionFromMTProto(cfg.ThisDC, s)", "do c.storeDCSess(c.sessions, sessionData)",
-        "do primaryDC := c.session.Load().DC",
-        "if cfg.ThisDC != 0 && primaryDC != 0 && primaryDC != cfg.ThisDC", "return nil",
-        "do c.session.Store(sessionData)", "if err != nil", "do err := c.saveSession(cfg, s)",
-        "return errors.Wrap(err, \"save\")", "return nil"] ∧
-    Facts.C30.onCDNSessionSrc =
-      ["do c.storeDCSess(c.cdnSessions, dcSessionFromMTProto(cfg.ThisDC, s))", "return nil"] ∧
-    Facts.C30.saveSessionSrc =
-      ["if c.storage == nil", "return nil", "do data, err := c.storage.Load(c.ctx)",
-        "if errors.Is(err, session.ErrNotFound)", "do err = nil", "do data = &session.Data{}", "if err != nil",
-        "return errors.Wrap(err, \"load\")", "do data.Config = session.ConfigFromTG(cfg)",
-        "do keyToSave := s.Key", "if !s.PermKey.Zero()", "do keyToSave = s.PermKey",
-        "do data.AuthKey = keyToSave.Value[:]", "do data.AuthKeyID = keyToSave.ID[:]",
-        "do data.DC = cfg.ThisDC", "do data.Salt = s.Salt", "if err != nil",
-        "do err := c.storage.Save(c.ctx, data)", "return errors.Wrap(err, \"save\")", "return nil"] ∧
-    Facts.C30.dcSessionSrc =
-      ["do keyToStore := s.Key", "if !s.PermKey.Zero()", "do keyToStore = s.PermKey",
-        "return pool.Session{ DC: dc, Salt: s.Salt, AuthKey: keyToStore, }"] ∧
-    Facts.C30.restoreSrc =
-      ["if c.storage == nil", "return nil", "do data, err := c.storage.Load(ctx)",
-        "if errors.Is(err, session.ErrNotFound)", "return nil", "if err != nil",
-        "return errors.Wrap(err, \"load\")", "do prev := c.session.Load()", "if data.DC == 0",
-        "do data.DC = prev.DC", "do copy(key.Value[:], data.AuthKey)", "do copy(key.ID[:], data.AuthKeyID)",
-        "if key.Value.ID() != key.ID", "return errors.New(\"corrupted key\")",
-        "do c.session.Store(pool.Session{ DC: data.DC, AuthKey: key, Salt: data.Salt, })", "return nil"] := by
+/-- The model interpreted from the regenerated structured facts (which value is stored as DC / key /
+key id / salt, the skip test, the refusal test, the order of the shared-state steps — read off the Go
+source by a symbolic executor on every run) IS the hand-written transliteration of
+`telegram/session.go` (Model/C30.lean, Model/C30Conc.lean), for every state and input. -/
+theorem interpreted_model_is_documented_model :
+    (∀ s t, advI s t = advThread s t) ∧ (∀ s n, stepI s n = step s n) ∧
+      (∀ P s l, restoreI P s l = restore P s l) :=
+  ⟨advI_eq, stepI_eq, restoreI_eq⟩
+
+/-- Control skeletons (guards and storage calls, classified structurally) of `saveSession` and
+`restoreConnection` are the modelled ones: nil storage → nil; load; not-found → fresh data / nil;
+error → error; save; refusal before the session is installed. -/
+theorem skeletons_are_modelled :
+    Facts.C30.saveSkeleton = ["guard[nil-storage]->nil", "load", "guard[error]->err", "storeSave", "guard[error]->err"] ∧
+    Facts.C30.restoreSkeleton =
+      ["guard[nil-storage]->nil", "load", "guard[not-found]->nil", "guard[error]->err", "refuse", "store"] := by
   decide
 
 /-! Non-vacuity: a history in which a foreign DC and a CDN DC report before and after the primary
@@ -183,15 +199,24 @@ private def hist : List Notif :=
   [⟨.regular, 4, k 4, zeroKey, 44, .none⟩, ⟨.cdn, 203, k 9, zeroKey, 99, .none⟩,
    ⟨.regular, 2, k 1, k 7, 22, .none⟩, ⟨.regular, 5, k 5, zeroKey, 55, .none⟩]
 
-example : (run s2 hist).stored = some ⟨2, [7, 7], [7], 22, ""⟩ := by decide
-example : (run s2 hist).session = ⟨2, k 7, 22⟩ := by decide
+example : (runI s2 hist).stored = some ⟨2, [7, 7], [7], 22, ""⟩ := by decide
+example : (runI s2 hist).session = ⟨2, k 7, 22⟩ := by decide
 example : ∀ n ∈ hist, n.cfgDC ≠ 0 := by decide
+
+/-- An interleaving with a migration landing between `c.session.Store` and the save: the storage
+keeps the notification's DC 2 with its key while the live primary session is already DC 4. -/
+private def acts : List Act :=
+  [.spawn ⟨.regular, 2, k 1, zeroKey, 22, .none⟩, .adv 0, .adv 0, .adv 0,
+   .spawn ⟨.migrate, 4, zeroKey, zeroKey, 0, .none⟩, .adv 1, .adv 0, .adv 0]
+
+example : (crunI (cinit s2) acts).st.stored = some ⟨2, [1, 1], [1], 22, ""⟩ ∧
+    (crunI (cinit s2) acts).st.session.dc = 4 := by decide
 
 /-- `restore_refuses_mismatch` / `restore_of_saved` have satisfiable hypotheses (toy SHA-1 = first
 20 bytes): a consistent key is accepted, a flipped key id is refused. -/
-example : (restore Prims.toy s2 (.data ⟨2, List.replicate 256 3, List.replicate 8 3, 5, ""⟩)).toOption.map
+example : (restoreI Prims.toy s2 (.data ⟨2, List.replicate 256 3, List.replicate 8 3, 5, ""⟩)).toOption.map
     (·.session.dc) = some 2 := by decide
-example : (restore Prims.toy s2 (.data ⟨2, List.replicate 256 3, List.replicate 8 4, 5, ""⟩)).toOption.map
+example : (restoreI Prims.toy s2 (.data ⟨2, List.replicate 256 3, List.replicate 8 4, 5, ""⟩)).toOption.map
     (·.session.dc) = none := by decide
 
 end TdModel.C30
